@@ -303,6 +303,10 @@ namespace igris
         {
             // TODO insert optimization
             size_t _pos = pos - m_data;
+            // value may be an element of this vector: copy it before anything moves
+            alignas(T) unsigned char tmpbuf[sizeof(T)];
+            T *tmp = reinterpret_cast<T *>(tmpbuf);
+            igris::constructor(tmp, value);
 
             reserve(m_size + 1);
 
@@ -310,14 +314,15 @@ namespace igris
             iterator last = (iterator)end();
             if (first == last)
             {
-                igris::constructor(last, value);
+                igris::move_constructor(last, std::move(*tmp));
             }
             else
             {
                 igris::move_constructor(last, std::move(*(last - 1)));
                 std::move_backward(first, last - 1, last);
-                *first = value;
+                *first = std::move(*tmp);
             }
+            igris::destructor(tmp);
             m_size++;
 
             return first;
